@@ -110,6 +110,9 @@ type Spec struct {
 	// EarlyDefs: a split job writes its chunk definitions and notifies mrp of them (as the
 	// Go adapter does) one step before it finishes: the run loop may scan and step in between
 	EarlyDefs bool `json:"early_defs"`
+	// QueueCheck (cluster mode): the job mode has a queue query command (the driver answers
+	// with the ids of the jobs that are alive) and a grace period of 3000 s as sge has
+	QueueCheck bool `json:"queue_check"`
 	// RelFiles: top-level output name -> path relative to the working directory mrp is started
 	// in; the file is created there (it is named by an invocation argument that the pipeline
 	// passes through) and must be available under outs/<name> afterwards
@@ -177,6 +180,7 @@ type Driver struct {
 	rt        *core.Runtime
 	psdir     string
 	prevDir   string // canonical directory of linked-in results of an earlier run
+	aliveFile string // cluster mode with a queue check: the ids of the jobs the cluster knows
 	vanished  int    // jobs that died without a trace
 	aged      int    // how often the heartbeat time-out was let pass
 	psid      string
@@ -222,6 +226,25 @@ var chunkRe = regexp.MustCompile(`^chnk(\d+)(?:-u[0-9a-f]{10})?$`)
 var sjRe = regexp.MustCompile(`^(split|join)(?:-u[0-9a-f]{10})?$`)
 
 // rel makes a path relative to the pipestance directory.
+// writeAlive: what the cluster's queue query answers - the ids of the submitted jobs that
+// have not ended.
+func (d *Driver) writeAlive() {
+	if d.aliveFile == "" {
+		return
+	}
+	var ids []string
+	d.mu.Lock()
+	for _, j := range d.jobs {
+		if !j.ended {
+			if b, err := os.ReadFile(path.Join(j.vj.MetadataPath, "_jobid")); err == nil {
+				ids = append(ids, strings.TrimSpace(string(b)))
+			}
+		}
+	}
+	d.mu.Unlock()
+	writeFile(d.aliveFile, []byte(strings.Join(ids, "\n")+"\n"))
+}
+
 // psdirArg is the pipestance directory as the runtime is given it.
 func (d *Driver) psdirArg() string {
 	switch d.spec.PsdirSpelling {
@@ -846,6 +869,12 @@ func (d *Driver) end(j *job) {
 		}
 		writeFile(path.Join(md, "_complete"), []byte("done"))
 		d.journal(j, "complete")
+	case "vanish":
+		// the job dies without a trace and without ever having sent a heartbeat: the
+		// cluster's queue no longer lists it
+		d.mu.Lock()
+		d.vanished++
+		d.mu.Unlock()
 	case "vanish-heartbeat":
 		// the job sends a heartbeat and then dies without a trace (node lost, SIGKILL of the
 		// wrapper): nothing but the heartbeat time-out can tell mrp
@@ -935,6 +964,7 @@ func (d *Driver) doEnv(a string) {
 	} else {
 		d.end(j)
 	}
+	d.writeAlive()
 }
 
 // releaseGate lets one waiting cleanup goroutine of the fork go on.
@@ -1060,6 +1090,17 @@ func Run(spec *Spec, workdir string) (res *Result) {
 			d.tmplPath = path.Join(root, "verifq.template")
 			writeFile(d.tmplPath, []byte("#!/bin/sh\n# __MRO_JOB_NAME__ __MRO_THREADS__ __MRO_MEM_GB__\ncd __MRO_JOB_WORKDIR__\n__MRO_CMD__ > __MRO_STDOUT__ 2> __MRO_STDERR__\n"))
 			o := opts
+			core.VerifQueueQuery, core.VerifQueueGraceSecs = "", 0
+			if spec.QueueCheck {
+				jm := core.VerifRelPath(path.Join("..", "jobmanagers"))
+				os.MkdirAll(jm, 0755)
+				writeFile(path.Join(jm, "verif_queue.sh"), []byte("#!/bin/sh\ncat > /dev/null\ncat \"$VERIF_ALIVE_FILE\" 2>/dev/null\nexit 0\n"))
+				os.Chmod(path.Join(jm, "verif_queue.sh"), 0755)
+				d.aliveFile = path.Join(root, "alive_jobs")
+				os.Setenv("VERIF_ALIVE_FILE", d.aliveFile)
+				core.VerifQueueQuery, core.VerifQueueGraceSecs = "verif_queue.sh", 3000
+				d.writeAlive()
+			}
 			return core.VerifNewRemoteRuntime(&o, 4, 4, d.tmplPath, "/bin/sh", []string{"-c", "cat > /dev/null; echo j$$"}, spec.MaxJobs)
 		}
 		return core.VerifNewRuntime(&opts, 4, 4, "/nonexistent/mrjob", "/nonexistent/adapters", d.exec)
@@ -1298,12 +1339,25 @@ func (d *Driver) loop(ctx context.Context) {
 		} else {
 			idle++
 		}
-		if idle > 4 && len(d.envActions()) == 0 && d.vanished > 0 && d.aged < 3 {
+		if idle > 4 && len(d.envActions()) == 0 && d.vanished > 0 && d.aged < 4 {
 			// nothing moves any more and a job has vanished: let more than the
 			// heartbeat time-out pass
 			d.aged++
-			d.tr.Emit("TimePasses", "minutes", 61)
-			d.ps.VerifAgeHeartbeats(61 * time.Minute)
+			d.writeAlive()
+			if d.spec.QueueCheck && d.aged%2 == 1 {
+				// more than the interval between two queue queries passes: the query runs
+				d.tr.Emit("TimePasses", "minutes", 6)
+				d.ps.VerifAgeQueueCheck(6 * time.Minute)
+				d.ps.CheckHeartbeats(ctx)
+				time.Sleep(80 * time.Millisecond)
+			} else if d.spec.QueueCheck {
+				// ... and then more than the grace period (less than the heartbeat time-out)
+				d.tr.Emit("TimePasses", "minutes", 51)
+				d.ps.VerifAgeQueueCheck(51 * time.Minute)
+			} else {
+				d.tr.Emit("TimePasses", "minutes", 61)
+				d.ps.VerifAgeHeartbeats(61 * time.Minute)
+			}
 			idle = 0
 			continue
 		}
